@@ -84,6 +84,7 @@ func runStall(c StallCase) *pbt.Result {
 		}
 	}
 	time.Sleep(50 * time.Millisecond)
+	pr.settle(connsAtStall - 1)
 	pr.mu.Lock()
 	defer pr.mu.Unlock()
 	seen := map[int]bool{}
